@@ -474,6 +474,20 @@ def module_files_case(ctx, case):
                         ctx.violation(dict(sig, q="content", phase=what, setup_pass=min(rep, 1), key=k), f"{what} loader of {fn}, setup pass {rep}: key '{k}' differs from the file's instances (in file order)", dict(N=N, bs=bs, sizes=sizes))
                         return
                 ctx.nontrivial_case(dict(c=case, f=fn, r=rep))
+        # an explicit file name overrides the file configured for the phase (documented: "Overriding dataset filename")
+        from torch.utils.data import DataLoader
+
+        for ph in ("val", "test", "train"):
+            other = tfn if ph != "test" else names[0]
+            ds_o = env.dataset(phase=ph, filename=os.path.join(d, other))
+            got = torch.cat([b for b in DataLoader(ds_o, batch_size=bs, collate_fn=ds_o.collate_fn)], 0)
+            want = expected(other)
+            ctx.evaluation()
+            ctx.count("c17_filename_override_reads")
+            n_want = next(iter(want.values())).shape[0]
+            if got.batch_size[0] != n_want or any(got[k].shape != w.shape or not torch.allclose(got[k].double(), w.double(), rtol=0, atol=1e-7) for k, w in want.items()):
+                ctx.violation(dict(sig, q="filename_override_ignored", phase=ph), f"env.dataset(phase='{ph}', filename={other}) does not return the instances of {other} ({got.batch_size[0]} rows; the env has its own {ph} file configured)", None)
+                return
         ctx.sample(dict(case=case, loaders=len(names)))
     finally:
         shutil.rmtree(d, ignore_errors=True)
